@@ -450,18 +450,11 @@ open Scalibr.Parsers
 
 /-! ### package-lock.json (v1: nested `dependencies`; v2/v3: `packages`) -/
 
-/-- the map writes the document calls for: `packages` (root project excluded) when present, else the flattened
-`dependencies` tree -/
-def PackageLock.writes (d : PackageLock.Doc) : List (Str × PackageLock.Details) :=
-  match d.packages with
-  | some ps => PackageLock.pkgWrites ps
-  | none => PackageLock.flatDeps d.dependencies
-
 /-- `Extract` on any decoded package-lock never panics and returns the values of a map with pairwise distinct
 de-duplication keys in which a (key, details) pair is present exactly when it is the LAST write to its key
 among the entries the document lists (flattened tree / packages map, aliases, file: and git versions resolved
 by `depEntry` / `pkgEntry`). Nothing is invented, nothing with a fresh key is dropped. -/
-theorem C03_packagelock (d : PackageLock.Doc) :
+theorem C03_packagelock_model_semantics (d : PackageLock.Doc) :
     ∃ m : PackageLock.PMap, PackageLock.extract d = .ok (m.map (·.2)) ∧ (keys m).Nodup ∧
       ∀ k x, (k, x) ∈ m ↔ lastOf (PackageLock.writes d) k = some x := by
   unfold PackageLock.extract PackageLock.writes
@@ -476,13 +469,22 @@ theorem C03_packagelock (d : PackageLock.Doc) :
     rw [mem_iff_lookup m hn, hl k, lookup_nil]
     cases lastOf (PackageLock.flatDeps d.dependencies) k <;> simp
 
+/-- the executable form the driver evaluates: the scan reports the values of a permutation of `PackageLock.expected d` -/
+theorem C03_packagelock_expected_model_semantics (d : PackageLock.Doc) :
+    ∃ m : PackageLock.PMap, PackageLock.extract d = .ok (m.map (·.2)) ∧ m.Perm (PackageLock.expected d) := by
+  obtain ⟨m, h1, h2, h3⟩ := C03_packagelock_model_semantics d
+  refine ⟨m, h1, perm_of_keys_nodup m _ h2 (keys_tabulate_nodup _ _) fun e => ?_⟩
+  obtain ⟨k, x⟩ := e
+  rw [h3, PackageLock.expected, mem_tabulate]
+  exact ⟨fun h => ⟨List.mem_map.mpr ⟨(k, x), lastOf_mem _ k x h, rfl⟩, h⟩, fun h => h.2⟩
+
 /-- When entries that share a de-duplication key agree (the same package listed at several places of the tree),
 the reported set is exactly the set of listed entries. -/
-theorem C03_packagelock_exact (d : PackageLock.Doc)
+theorem C03_packagelock_exact_model_semantics (d : PackageLock.Doc)
     (hc : ∀ e ∈ PackageLock.writes d, ∀ e' ∈ PackageLock.writes d, e.1 = e'.1 → e.2 = e'.2) :
     ∃ m : PackageLock.PMap, PackageLock.extract d = .ok (m.map (·.2)) ∧ (keys m).Nodup ∧
       ∀ e, e ∈ m ↔ e ∈ PackageLock.writes d := by
-  obtain ⟨m, h1, h2, h3⟩ := C03_packagelock d
+  obtain ⟨m, h1, h2, h3⟩ := C03_packagelock_model_semantics d
   refine ⟨m, h1, h2, fun e => ?_⟩
   obtain ⟨k, x⟩ := e
   rw [h3]
@@ -560,23 +562,47 @@ theorem C03_pipfile (d : Pipfile.Doc) :
   refine ⟨m, by simp [Pipfile.extract, h1, h2, m], n2, values_nodup m Pipfile.keyNV hkey n2, fun k nv => ?_⟩
   rw [mem_iff_lookup m n2, hlook]
 
+/-- the executable form the driver evaluates: the scan reports the values of a permutation of `Pipfile.expected d` -/
+theorem C03_pipfile_expected (d : Pipfile.Doc) :
+    ∃ m : List (Str × NV), Pipfile.extract d = .ok (m.map (·.2)) ∧ m.Perm (Pipfile.expected d) := by
+  obtain ⟨m, h1, h2, _, h4⟩ := C03_pipfile d
+  refine ⟨m, h1, perm_of_keys_nodup m _ h2 (keys_tabulate_nodup _ _) fun e => ?_⟩
+  obtain ⟨k, x⟩ := e
+  rw [h4, Pipfile.expected, mem_tabulate]
+  exact ⟨fun h => ⟨List.mem_map.mpr ⟨(k, x), mem_of_lookup _ k x h, rfl⟩, h⟩, fun h => h.2⟩
+
 /-! ### packages.lock.json (after fix 455d5282) -/
 
-/-- every (name, resolved) pair listed under any target framework is reported, exactly once -/
+/-- every (id, resolved version) pair listed under any target framework is reported, exactly once: membership is over
+PAIRS — one id resolved to different versions under two target frameworks is two packages (`listed`, `expected`: Spec) -/
 theorem C03_pkgslock (d : PackagesLock.Doc) :
-    (PackagesLock.extract d).Nodup ∧ ∀ p, p ∈ PackagesLock.extract d ↔ p ∈ PackagesLock.entries d := by
+    (PackagesLock.extract d).Nodup ∧ ∀ p, p ∈ PackagesLock.extract d ↔ p ∈ PackagesLock.listed d := by
   obtain ⟨h1, h2⟩ := foldl_addOnce (PackagesLock.entries d) [] List.nodup_nil
-  exact ⟨h1, fun p => by rw [PackagesLock.extract, h2]; simp⟩
+  exact ⟨h1, fun p => by rw [PackagesLock.extract, h2]; simp [PackagesLock.listed, PackagesLock.entries]⟩
+
+/-- the executable form the driver evaluates: the scan reports a permutation of the distinct listed pairs -/
+theorem C03_pkgslock_expected (d : PackagesLock.Doc) : (PackagesLock.extract d).Perm (PackagesLock.expected d) :=
+  perm_dedup_of_nodup _ _ (C03_pkgslock d).1 (C03_pkgslock d).2
+
+/-- the same id at two versions under two frameworks is two packages; at the same version, one -/
+example : PackagesLock.extract [("net6.0".toList, [("A".toList, "1.0".toList)]), ("net8.0".toList, [("A".toList, "2.0".toList), ("B".toList, "3".toList)]),
+    ("net48".toList, [("B".toList, "3".toList)])]
+    = [⟨"A".toList, "1.0".toList⟩, ⟨"A".toList, "2.0".toList⟩, ⟨"B".toList, "3".toList⟩] := by decide
+
+/-- FINDING (known_findings.txt C03/pkgslock-project-reference): a project reference (`"type": "Project"`, no `resolved`) is
+reported as a package with an empty version although the Spec (`expectedT`) lists no package for it -/
+theorem C03_pkgslock_project_reported :
+    let d : PackagesLock.TDoc := [("net6.0".toList, [("mylib".toList, [], "Project".toList), ("A".toList, "1.0".toList, "Direct".toList)])]
+    PackagesLock.extract d.toDoc = [⟨"mylib".toList, []⟩, ⟨"A".toList, "1.0".toList⟩] ∧
+    PackagesLock.expectedT d = [⟨"A".toList, "1.0".toList⟩] := by decide
 
 /-! ### go.mod -/
-
-def GoMod.stdlibKey : Str × Str := ("stdlib".toList, [])
 
 /-- The reported packages are pairwise distinct and are exactly: what every `require` line ends up as after
 the `replace` directives (`finalOf`), plus `stdlib` at the toolchain / go version when there is one. A require
 line whose own key is the stdlib key would be overwritten by the stdlib entry (it cannot come out of
 `modfile.Parse`, which rejects an empty version; the clause is kept so that the statement is unconditional). -/
-theorem C03_gomod (d : GoMod.Doc) :
+theorem C03_gomod_model_semantics (d : GoMod.Doc) :
     (GoMod.extract d).Nodup ∧
     ∀ nv, nv ∈ GoMod.extract d ↔
       ((GoMod.stdlibVersion d ≠ [] ∧ nv = ⟨"stdlib".toList, GoMod.stdlibVersion d⟩) ∨
@@ -685,5 +711,23 @@ def GoMod.exDoc : GoMod.Doc :=
 example : GoMod.extract GoMod.exDoc =
     [⟨"example.org/fork/b".toList, "1.2.4".toList⟩, ⟨"golang.org/x/net".toList, "0.36.0".toList⟩,
      ⟨"example.org/fork/c".toList, "2.0.1".toList⟩, ⟨"stdlib".toList, "1.23.4".toList⟩] := by decide
+
+/-- the executable form the driver evaluates: the scan reports a permutation of `GoMod.expected d` -/
+theorem C03_gomod_expected_model_semantics (d : GoMod.Doc) : (GoMod.extract d).Perm (GoMod.expected d) := by
+  obtain ⟨h1, h2⟩ := C03_gomod_model_semantics d
+  refine perm_dedup_of_nodup _ _ h1 fun nv => ?_
+  rw [h2 nv]
+  simp only [List.mem_append, List.mem_map, List.mem_filter, decide_eq_true_eq]
+  constructor
+  · rintro (⟨hs, rfl⟩ | ⟨r, hr, hc, rfl⟩)
+    · left; simp [hs]
+    · right; exact ⟨r, ⟨hr, hc⟩, rfl⟩
+  · rintro (h | ⟨r, ⟨hr, hc⟩, rfl⟩)
+    · left
+      by_cases hs : GoMod.stdlibVersion d ≠ []
+      · simp only [hs, ne_eq, not_false_eq_true, if_true, List.mem_singleton] at h
+        exact ⟨hs, h⟩
+      · simp [hs] at h
+    · right; exact ⟨r, hr, hc, rfl⟩
 
 end Scalibr.Lockfiles
